@@ -225,16 +225,23 @@ theorem mkdirs_lookup (s : FS) (base path q : Path) :
 def relOf (e : Entry) : Path :=
   e.path.filterMap (fun c => match c with | .normal n => some n | _ => none)
 
-def writeNode (fs1 : FS) (target : Path) : EntryKind → FS
-  | .dir => (match lookup fs1 target with | none => set fs1 target .dir | some _ => fs1)
-  | .file c => set fs1 target (.file c)
-  | .symlink t => set fs1 target (.symlink t)
+/-- the final write of `unpackIn`, depending on what already exists at the target -/
+def writeNode (fs1 : FS) (target : Path) (k : EntryKind) : Step :=
+  match k, lookup fs1 target with
+  | .dir, none => .ok (set fs1 target .dir)
+  | .dir, some .dir => .ok fs1
+  | .dir, some (.symlink t) => if lookup fs1 t == some .dir then .ok fs1 else .error
+  | .dir, some (.file _) => .error
+  | .file _, some .dir => .error
+  | .file c, _ => .ok (set fs1 target (.file c))
+  | .symlink _, some .dir => .error
+  | .symlink t, _ => .ok (set fs1 target (.symlink t))
 
 def finish (fs1 : FS) (srcDir : Path) (e : Entry) : Step :=
   match canon fs1 64 [] (srcDir ++ (relOf e).dropLast), canon fs1 64 [] srcDir with
   | some cp, some cd =>
     if !(cd.isPrefixOf cp) then .error
-    else .ok (writeNode fs1 (cp ++ [(relOf e).getLastD 0]) e.kind)
+    else writeNode fs1 (cp ++ [(relOf e).getLastD 0]) e.kind
   | _, _ => .error
 
 theorem unpackIn_eq (s : FS) (srcDir : Path) (e : Entry) :
@@ -250,16 +257,33 @@ def StepEquiv : Step → Step → Prop
   | .error, .error => True
   | _, _ => False
 
+theorem StepEquiv.ok {a b : FS} (h : Equiv a b) : StepEquiv (.ok a) (.ok b) := h
+
 theorem writeNode_congr {a b : FS} (h : Equiv a b) (t : Path) (k : EntryKind) :
-    Equiv (writeNode a t k) (writeNode b t k) := by
+    StepEquiv (writeNode a t k) (writeNode b t k) := by
+  unfold writeNode
+  rw [h t]
   cases k with
   | dir =>
-    simp only [writeNode, h t]
-    split
-    · exact set_congr h _ _
-    · exact h
-  | file c => exact set_congr h _ _
-  | symlink l => exact set_congr h _ _
+    cases lookup b t with
+    | none => exact set_congr h _ _
+    | some n =>
+      cases n with
+      | dir => exact h
+      | file c => trivial
+      | symlink l =>
+        simp only [h l]
+        split
+        · exact h
+        · trivial
+  | file c =>
+    cases lookup b t with
+    | none => exact set_congr h _ _
+    | some n => cases n <;> first | trivial | exact set_congr h _ _
+  | symlink l =>
+    cases lookup b t with
+    | none => exact set_congr h _ _
+    | some n => cases n <;> first | trivial | exact set_congr h _ _
 
 theorem finish_congr {a b : FS} (h : Equiv a b) (srcDir : Path) (e : Entry) :
     StepEquiv (finish a srcDir e) (finish b srcDir e) := by
@@ -292,12 +316,14 @@ theorem unpackEntries_congr {a b : FS} (h : Equiv a b) (srcDir : Path) (pfx : Na
       simp only [unpackEntries]
       split
       · exact ⟨h, rfl⟩
-      · have hs := unpackIn_congr h srcDir e
-        revert hs
-        cases unpackIn a srcDir e <;> cases unpackIn b srcDir e <;> intro hs
-        · exact ih hs k
-        · exact absurd hs (by simp [StepEquiv])
-        · exact absurd hs (by simp [StepEquiv])
-        · exact ⟨h, rfl⟩
+      · split
+        · exact ih h k          -- the archive's own marker entry: skipped
+        · have hs := unpackIn_congr h srcDir e
+          revert hs
+          cases unpackIn a srcDir e <;> cases unpackIn b srcDir e <;> intro hs
+          · exact ih hs k
+          · exact absurd hs (by simp [StepEquiv])
+          · exact absurd hs (by simp [StepEquiv])
+          · exact ⟨h, rfl⟩
 
 end Vet.Unpack
